@@ -426,6 +426,10 @@ class Interp:
             return self.eval(e.body, f) if self.decide(self.eval(e.test, f)) else self.eval(e.orelse, f)
         if isinstance(e, ast.Tuple):
             return tuple(self.eval(x, f) for x in e.elts)
+        if isinstance(e, ast.Dict):
+            if any(k is None for k in e.keys):
+                raise Unsupported("dict unpacking")
+            return {self.eval(k, f): self.eval(v, f) for k, v in zip(e.keys, e.values)}  # type: ignore[arg-type]
         if isinstance(e, ast.List):
             return [self.eval(x, f) for x in e.elts]
         if isinstance(e, ast.Subscript):
@@ -581,6 +585,15 @@ class Interp:
             if n in ("set", "list", "tuple") and len(args) <= 1 and not any(is_sym(a) for a in args):
                 return {"set": set, "list": list, "tuple": tuple}[n](*args)
             if n == "isinstance":
+                if isinstance(args[0], Obj) and "__tag__" in args[0].attrs:
+                    # an environment object whose class is one of several known ones: the tag may be symbolic
+                    tags = args[1] if isinstance(args[1], tuple) else (args[1],)
+                    if not all(isinstance(t, int) for t in tags):
+                        raise Unsupported("isinstance against an unknown class")
+                    tag = args[0].attrs["__tag__"]
+                    if is_sym(tag):
+                        return z3.Or(*[tag == t for t in tags])
+                    return tag in tags
                 if isinstance(args[0], (bytes, bytearray)) or (is_sym(args[0]) and args[0].sort() == BYTES):
                     return args[1] is bytes or (isinstance(args[1], tuple) and bytes in args[1])
                 if args[0] is None or isinstance(args[0], (int, str, list, tuple, dict)):
